@@ -253,18 +253,36 @@ func (s *metricSchemaStore) Flush() error {
 	if err != nil {
 		return err
 	}
-	err = s.immutable.WalkEntry(func(key uint32, value *metric.Schema) error {
-		if !value.NeedWrite() {
-			return nil
+	// freeze what is written: genFieldID/genTagKeyID may append to a schema while it is flushed
+	// (one schema object can live in the mutable and the immutable store at the same time),
+	// and only what was written may be marked as persisted afterwards.
+	type frozenSchema struct {
+		schema  *metric.Schema
+		written metric.Schema
+		key     uint32
+	}
+	var frozen []frozenSchema
+	s.lock.RLock()
+	_ = s.immutable.WalkEntry(func(key uint32, value *metric.Schema) error {
+		if value.NeedWrite() {
+			nf, nt := len(value.Fields), len(value.TagKeys)
+			frozen = append(frozen, frozenSchema{
+				key:     key,
+				schema:  value,
+				written: metric.Schema{Fields: value.Fields[:nf:nf], TagKeys: value.TagKeys[:nt:nt]},
+			})
 		}
-		flusher.Prepare(key)
-		if err0 := flusher.Write(value); err0 != nil {
-			return err0
-		}
-		return flusher.Commit()
+		return nil
 	})
-	if err != nil {
-		return err
+	s.lock.RUnlock()
+	for i := range frozen {
+		flusher.Prepare(frozen[i].key)
+		if err = flusher.Write(&frozen[i].written); err != nil {
+			return err
+		}
+		if err = flusher.Commit(); err != nil {
+			return err
+		}
 	}
 	err = flusher.Close()
 	if err != nil {
@@ -272,11 +290,15 @@ func (s *metricSchemaStore) Flush() error {
 	}
 
 	s.lock.Lock()
-	// mark schema persisted
-	_ = s.immutable.WalkEntry(func(_ uint32, value *metric.Schema) error {
-		value.MarkPersisted()
-		return nil
-	})
+	// mark what was written as persisted
+	for i := range frozen {
+		for j := range frozen[i].written.Fields {
+			frozen[i].schema.Fields[j].Persisted = true
+		}
+		for j := range frozen[i].written.TagKeys {
+			frozen[i].schema.TagKeys[j].Persisted = true
+		}
+	}
 	s.immutable = nil
 	s.flushGen++
 	s.cache.Purge()
